@@ -144,12 +144,14 @@ Definition loadobs_eqb (a b : loadobs) : bool :=
 
 Definition check (fx2 fx3 fx5 fx6 fx7 : bool) (c : case) : verdict :=
   let eng := eng_of (c_oracle c) in
+  let tbl := flat_routes 0 (c_rules c) in
+  (* the property on whatever the implementation served, also when the model refuses the rule set *)
+  let obs_prop := forallb (req_prop eng tbl) (c_reqs c) in
   match load fx3 (c_rules c) with
-  | CreateFailed => {| v_corr := loadobs_eqb (c_load c) OCreateFailed; v_prop := true; v_guards := [] |}
-  | AddFailed => {| v_corr := loadobs_eqb (c_load c) OAddFailed; v_prop := true; v_guards := [] |}
-  | ModelFuel => {| v_corr := false; v_prop := true; v_guards := [] |}
+  | CreateFailed => {| v_corr := loadobs_eqb (c_load c) OCreateFailed; v_prop := obs_prop; v_guards := [] |}
+  | AddFailed => {| v_corr := loadobs_eqb (c_load c) OAddFailed; v_prop := obs_prop; v_guards := [] |}
+  | ModelFuel => {| v_corr := false; v_prop := obs_prop; v_guards := [] |}
   | Loaded es t =>
-    let tbl := flat_routes 0 (c_rules c) in
     let rows := map (fun o =>
                   let '(mout, mcalls) := serve fx2 fx5 fx6 fx7 eng es t (ro_req o) in
                   let ok := req_prop eng tbl o in
